@@ -147,3 +147,36 @@ pub fn main() {
         println!("{}", json!({"id": t["id"], "vals": vals, "crashes": crashes}));
     }
 }
+
+/// Permissions from the JSON form used by traces:
+/// {"g": bits, "streams": null | [[sid, bits, null | [[tid, bits], ...]], ...]}
+pub fn perms_from_json(v: &Value) -> Permissions {
+    let streams = v.get("streams").filter(|x| !x.is_null()).map(|arr| {
+        let mut m = AHashMap::new();
+        for e in arr.as_array().unwrap() {
+            let sid = e[0].as_u64().unwrap() as u32;
+            let n = e[1].as_u64().unwrap();
+            let topics = e.get(2).filter(|x| !x.is_null()).map(|ts| {
+                let mut tm = AHashMap::new();
+                for te in ts.as_array().unwrap() {
+                    tm.insert(te[0].as_u64().unwrap() as u32, tperm_of(te[1].as_u64().unwrap()));
+                }
+                tm
+            });
+            m.insert(
+                sid,
+                StreamPermissions {
+                    manage_stream: bit(n, 0),
+                    read_stream: bit(n, 1),
+                    manage_topics: bit(n, 2),
+                    read_topics: bit(n, 3),
+                    poll_messages: bit(n, 4),
+                    send_messages: bit(n, 5),
+                    topics,
+                },
+            );
+        }
+        m
+    });
+    Permissions { global: gperm_of(v.get("g").and_then(|x| x.as_u64()).unwrap_or(0)), streams }
+}
